@@ -308,6 +308,15 @@ pub fn run_all(
     }
     let next = AtomicU64::new(0);
     let stop = AtomicBool::new(false);
+    // once a violation is certain, the rest of the run is bounded in time as well (a change that makes every
+    // case fail slowly - a deadlock diagnosed after seconds - must not take the whole watchdog): two minutes
+    // after the first new failure no further case is started. The verdict does not depend on it.
+    let started = std::time::Instant::now();
+    let first_failure_ms = AtomicU64::new(0);
+    let overdue = || {
+        let f = first_failure_ms.load(Ordering::SeqCst);
+        f != 0 && started.elapsed().as_millis() as u64 > f + 120_000
+    };
     let merged: Mutex<(BTreeMap<String, FamStats>, HashSet<u64>, Vec<Found>)> =
         Mutex::new((BTreeMap::new(), HashSet::new(), Vec::new()));
     let exhaustive = families.iter().all(|f| f.exhaustive) && !families.is_empty();
@@ -318,7 +327,7 @@ pub fn run_all(
                 .stack_size(STACK)
                 .spawn_scoped(scope, || loop {
                     let i = next.fetch_add(1, Ordering::SeqCst) as usize;
-                    if i >= work.len() || stop.load(Ordering::SeqCst) {
+                    if i >= work.len() || stop.load(Ordering::SeqCst) || overdue() {
                         break;
                     }
                     let (fi, chunk) = work[i];
@@ -350,11 +359,11 @@ pub fn run_all(
                                             st.samples.push(truncate_case(&case));
                                         }
                                     }
-                                    true
+                                    !overdue()
                                 }
                                 Verdict::Skip(why) => {
                                     *st.skipped.entry(why.to_string()).or_default() += 1;
-                                    true
+                                    !overdue()
                                 }
                                 Verdict::Fail(f) => {
                                     if ctx.known.has(&f.sig) {
@@ -362,6 +371,7 @@ pub fn run_all(
                                         true
                                     } else {
                                         // at most one new failure per distinct signature per chunk
+                                        let _ = first_failure_ms.compare_exchange(0, (started.elapsed().as_millis() as u64).max(1), Ordering::SeqCst, Ordering::SeqCst);
                                         if !found.iter().any(|x| x.failure.sig == f.sig) {
                                             progress.case_failed(&fam.name, chunk, &case);
                                             found.push(Found {
@@ -372,7 +382,7 @@ pub fn run_all(
                                                 failure: f,
                                             });
                                         }
-                                        found.len() < 24
+                                        found.len() < 24 && !overdue()
                                     }
                                 }
                             }
